@@ -44,6 +44,7 @@ structure CInv (s : St) : Prop where
   retwin : ∀ t, (s.pc t).retWin = true → s.handed.length + 1 = s.hd
   nretwin : ∀ t, (s.pc t).isWorker = true → (s.pc t).retWin = false → s.handed.length = s.hd
   hle : s.handed.length ≤ s.hd
+  hub : s.hd ≤ s.handed.length + 1
   pend1 : ∀ t v n r, s.pc t = .pushAnnounced v n r → t ∈ s.pending
   pend2 : ∀ t v n r, s.pc t = .pushTerminated v n r → t ∈ s.pending
   ann : s.announced = s.tl + s.pending.length
@@ -65,35 +66,35 @@ macro "split_step" hs:ident : tactic => `(tactic| (
 
 theorem cinv_callPush (s s' : St) (t v n : Nat) (I : CInv s) (hs : step s (.callPush t v n) = some s') : CInv s' := by
   obtain ⟨cnt, one, wk, pos, idle0, outc, zeroed, oldv, gotout, popwin, npopwin, retwin, nretwin,
-    hle, pend1, pend2, ann⟩ := I
+    hle, hub, pend1, pend2, ann⟩ := I
   split_step hs
   all_goals constructor
   cinv_tac
 
 theorem cinv_retPush (s s' : St) (t r : Nat) (I : CInv s) (hs : step s (.retPush t r) = some s') : CInv s' := by
   obtain ⟨cnt, one, wk, pos, idle0, outc, zeroed, oldv, gotout, popwin, npopwin, retwin, nretwin,
-    hle, pend1, pend2, ann⟩ := I
+    hle, hub, pend1, pend2, ann⟩ := I
   split_step hs
   all_goals constructor
   cinv_tac
 
 theorem cinv_callGw (s s' : St) (t : Nat) (I : CInv s) (hs : step s (.callGw t) = some s') : CInv s' := by
   obtain ⟨cnt, one, wk, pos, idle0, outc, zeroed, oldv, gotout, popwin, npopwin, retwin, nretwin,
-    hle, pend1, pend2, ann⟩ := I
+    hle, hub, pend1, pend2, ann⟩ := I
   split_step hs
   all_goals constructor
   cinv_tac
 
 theorem cinv_retGw (s s' : St) (t v n : Nat) (I : CInv s) (hs : step s (.retGw t v n) = some s') : CInv s' := by
   obtain ⟨cnt, one, wk, pos, idle0, outc, zeroed, oldv, gotout, popwin, npopwin, retwin, nretwin,
-    hle, pend1, pend2, ann⟩ := I
+    hle, hub, pend1, pend2, ann⟩ := I
   split_step hs
   all_goals constructor
   cinv_tac
 
 theorem cinv_faddIn (s s' : St) (t old : Nat) (I : CInv s) (hs : step s (.faddIn t old) = some s') : CInv s' := by
   obtain ⟨cnt, one, wk, pos, idle0, outc, zeroed, oldv, gotout, popwin, npopwin, retwin, nretwin,
-    hle, pend1, pend2, ann⟩ := I
+    hle, hub, pend1, pend2, ann⟩ := I
   split_step hs
   rename_i hc
   have hw : old = 0 → s.workers = [] := by
@@ -113,77 +114,77 @@ theorem cinv_faddIn (s s' : St) (t old : Nat) (I : CInv s) (hs : step s (.faddIn
 
 theorem cinv_fsubIn (s s' : St) (t old op : Nat) (I : CInv s) (hs : step s (.fsubIn t old op) = some s') : CInv s' := by
   obtain ⟨cnt, one, wk, pos, idle0, outc, zeroed, oldv, gotout, popwin, npopwin, retwin, nretwin,
-    hle, pend1, pend2, ann⟩ := I
+    hle, hub, pend1, pend2, ann⟩ := I
   split_step hs
   all_goals constructor
   cinv_tac
 
 theorem cinv_rdIn (s s' : St) (t x : Nat) (I : CInv s) (hs : step s (.rdIn t x) = some s') : CInv s' := by
   obtain ⟨cnt, one, wk, pos, idle0, outc, zeroed, oldv, gotout, popwin, npopwin, retwin, nretwin,
-    hle, pend1, pend2, ann⟩ := I
+    hle, hub, pend1, pend2, ann⟩ := I
   split_step hs
   all_goals constructor
   cinv_tac
 
 theorem cinv_rdOut (s s' : St) (t x : Nat) (I : CInv s) (hs : step s (.rdOut t x) = some s') : CInv s' := by
   obtain ⟨cnt, one, wk, pos, idle0, outc, zeroed, oldv, gotout, popwin, npopwin, retwin, nretwin,
-    hle, pend1, pend2, ann⟩ := I
+    hle, hub, pend1, pend2, ann⟩ := I
   split_step hs
   all_goals constructor
   cinv_tac
 
 theorem cinv_wrOut (s s' : St) (t x : Nat) (I : CInv s) (hs : step s (.wrOut t x) = some s') : CInv s' := by
   obtain ⟨cnt, one, wk, pos, idle0, outc, zeroed, oldv, gotout, popwin, npopwin, retwin, nretwin,
-    hle, pend1, pend2, ann⟩ := I
+    hle, hub, pend1, pend2, ann⟩ := I
   split_step hs
   all_goals constructor
   cinv_tac
 
 theorem cinv_rdHead (s s' : St) (t x : Nat) (I : CInv s) (hs : step s (.rdHead t x) = some s') : CInv s' := by
   obtain ⟨cnt, one, wk, pos, idle0, outc, zeroed, oldv, gotout, popwin, npopwin, retwin, nretwin,
-    hle, pend1, pend2, ann⟩ := I
+    hle, hub, pend1, pend2, ann⟩ := I
   split_step hs
   all_goals constructor
   cinv_tac
 
 theorem cinv_wrHead (s s' : St) (t x : Nat) (I : CInv s) (hs : step s (.wrHead t x) = some s') : CInv s' := by
   obtain ⟨cnt, one, wk, pos, idle0, outc, zeroed, oldv, gotout, popwin, npopwin, retwin, nretwin,
-    hle, pend1, pend2, ann⟩ := I
+    hle, hub, pend1, pend2, ann⟩ := I
   split_step hs
   all_goals constructor
   cinv_tac
 
 theorem cinv_xchgTail (s s' : St) (t old new : Nat) (I : CInv s) (hs : step s (.xchgTail t old new) = some s') : CInv s' := by
   obtain ⟨cnt, one, wk, pos, idle0, outc, zeroed, oldv, gotout, popwin, npopwin, retwin, nretwin,
-    hle, pend1, pend2, ann⟩ := I
+    hle, hub, pend1, pend2, ann⟩ := I
   split_step hs
   all_goals constructor
   cinv_tac
 
 theorem cinv_rdNext (s s' : St) (t n x : Nat) (I : CInv s) (hs : step s (.rdNext t n x) = some s') : CInv s' := by
   obtain ⟨cnt, one, wk, pos, idle0, outc, zeroed, oldv, gotout, popwin, npopwin, retwin, nretwin,
-    hle, pend1, pend2, ann⟩ := I
+    hle, hub, pend1, pend2, ann⟩ := I
   split_step hs
   all_goals constructor
   cinv_tac
 
 theorem cinv_wrNext (s s' : St) (t n x : Nat) (I : CInv s) (hs : step s (.wrNext t n x) = some s') : CInv s' := by
   obtain ⟨cnt, one, wk, pos, idle0, outc, zeroed, oldv, gotout, popwin, npopwin, retwin, nretwin,
-    hle, pend1, pend2, ann⟩ := I
+    hle, hub, pend1, pend2, ann⟩ := I
   split_step hs
   all_goals constructor
   cinv_tac
 
 theorem cinv_rdData (s s' : St) (t n x : Nat) (I : CInv s) (hs : step s (.rdData t n x) = some s') : CInv s' := by
   obtain ⟨cnt, one, wk, pos, idle0, outc, zeroed, oldv, gotout, popwin, npopwin, retwin, nretwin,
-    hle, pend1, pend2, ann⟩ := I
+    hle, hub, pend1, pend2, ann⟩ := I
   split_step hs
   all_goals constructor
   cinv_tac
 
 theorem cinv_wrData (s s' : St) (t n x : Nat) (I : CInv s) (hs : step s (.wrData t n x) = some s') : CInv s' := by
   obtain ⟨cnt, one, wk, pos, idle0, outc, zeroed, oldv, gotout, popwin, npopwin, retwin, nretwin,
-    hle, pend1, pend2, ann⟩ := I
+    hle, hub, pend1, pend2, ann⟩ := I
   split_step hs
   all_goals constructor
   cinv_tac
@@ -282,5 +283,463 @@ theorem minv_init : MInv init := by
   · constructor <;> simp [init]
     all_goals (intros; omega)
   · intro t; simp [init, PcOk]
+
+/-! ### preservation of the MPSC invariant: events that only move a program counter -/
+
+
+/-- events that only move the program counter of `t` (and touch fields `Chain`/`PcOk` do not
+    mention): the chain part is unchanged, other threads' `PcOk` is unchanged -/
+macro "pc_only" ch:ident pcok:ident t:ident : tactic => `(tactic| (
+  constructor
+  · exact $ch
+  · intro t'
+    by_cases e : t' = $t
+    · subst e; simp only [upd_same]
+      first
+        | (simp [PcOk]; done)
+        | (split <;> simp [PcOk]; done)
+        | (have ⟨hdtl, head_eq, tail_eq, lk, unlk, lktl, lkhd, dist, qd, nz, dat, xlen, hand⟩ := $ch
+           grind [PcOk])
+    · simp only [upd_other _ _ _ _ e]; exact $pcok t'))
+
+theorem minv_retPush (s s' : St) (t r : Nat) (_C : CInv s) (M : MInv s)
+    (hs : step s (.retPush t r) = some s') : MInv s' := by
+  obtain ⟨ch, pcok⟩ := M
+  have hp := pcok t
+  cases hpc : s.pc t <;> simp [step, hpc] at hs
+  all_goals
+    first
+      | (obtain ⟨hc, rfl⟩ := hs)
+      | (subst hs)
+  all_goals
+    rw [hpc] at hp; simp only [PcOk] at hp
+    pc_only ch pcok t
+
+theorem minv_callGw (s s' : St) (t : Nat) (_C : CInv s) (M : MInv s)
+    (hs : step s (.callGw t) = some s') : MInv s' := by
+  obtain ⟨ch, pcok⟩ := M
+  have hp := pcok t
+  cases hpc : s.pc t <;> simp [step, hpc] at hs
+  all_goals
+    first
+      | (obtain ⟨hc, rfl⟩ := hs)
+      | (subst hs)
+  all_goals
+    rw [hpc] at hp; simp only [PcOk] at hp
+    pc_only ch pcok t
+
+theorem minv_faddIn (s s' : St) (t old : Nat) (_C : CInv s) (M : MInv s)
+    (hs : step s (.faddIn t old) = some s') : MInv s' := by
+  obtain ⟨ch, pcok⟩ := M
+  have hp := pcok t
+  cases hpc : s.pc t <;> simp [step, hpc] at hs
+  all_goals
+    first
+      | (obtain ⟨hc, rfl⟩ := hs)
+      | (subst hs)
+  all_goals
+    rw [hpc] at hp; simp only [PcOk] at hp
+    pc_only ch pcok t
+
+theorem minv_fsubIn (s s' : St) (t old op : Nat) (_C : CInv s) (M : MInv s)
+    (hs : step s (.fsubIn t old op) = some s') : MInv s' := by
+  obtain ⟨ch, pcok⟩ := M
+  have hp := pcok t
+  cases hpc : s.pc t <;> simp [step, hpc] at hs
+  all_goals
+    first
+      | (obtain ⟨hc, rfl⟩ := hs)
+      | (subst hs)
+  all_goals
+    rw [hpc] at hp; simp only [PcOk] at hp
+    pc_only ch pcok t
+
+theorem minv_rdIn (s s' : St) (t x : Nat) (_C : CInv s) (M : MInv s)
+    (hs : step s (.rdIn t x) = some s') : MInv s' := by
+  obtain ⟨ch, pcok⟩ := M
+  have hp := pcok t
+  cases hpc : s.pc t <;> simp [step, hpc] at hs
+  all_goals
+    first
+      | (obtain ⟨hc, rfl⟩ := hs)
+      | (subst hs)
+  all_goals
+    rw [hpc] at hp; simp only [PcOk] at hp
+    pc_only ch pcok t
+
+theorem minv_rdOut (s s' : St) (t x : Nat) (_C : CInv s) (M : MInv s)
+    (hs : step s (.rdOut t x) = some s') : MInv s' := by
+  obtain ⟨ch, pcok⟩ := M
+  have hp := pcok t
+  cases hpc : s.pc t <;> simp [step, hpc] at hs
+  all_goals
+    first
+      | (obtain ⟨hc, rfl⟩ := hs)
+      | (subst hs)
+  all_goals
+    rw [hpc] at hp; simp only [PcOk] at hp
+    pc_only ch pcok t
+
+theorem minv_wrOut (s s' : St) (t x : Nat) (_C : CInv s) (M : MInv s)
+    (hs : step s (.wrOut t x) = some s') : MInv s' := by
+  obtain ⟨ch, pcok⟩ := M
+  have hp := pcok t
+  cases hpc : s.pc t <;> simp [step, hpc] at hs
+  all_goals
+    first
+      | (obtain ⟨hc, rfl⟩ := hs)
+      | (subst hs)
+  all_goals
+    rw [hpc] at hp; simp only [PcOk] at hp
+    pc_only ch pcok t
+
+theorem minv_rdHead (s s' : St) (t x : Nat) (_C : CInv s) (M : MInv s)
+    (hs : step s (.rdHead t x) = some s') : MInv s' := by
+  obtain ⟨ch, pcok⟩ := M
+  have hp := pcok t
+  cases hpc : s.pc t <;> simp [step, hpc] at hs
+  all_goals
+    first
+      | (obtain ⟨hc, rfl⟩ := hs)
+      | (subst hs)
+  all_goals
+    rw [hpc] at hp; simp only [PcOk] at hp
+    pc_only ch pcok t
+
+theorem minv_rdNext (s s' : St) (t n x : Nat) (_C : CInv s) (M : MInv s)
+    (hs : step s (.rdNext t n x) = some s') : MInv s' := by
+  obtain ⟨ch, pcok⟩ := M
+  have hp := pcok t
+  cases hpc : s.pc t <;> simp [step, hpc] at hs
+  all_goals
+    first
+      | (obtain ⟨hc, rfl⟩ := hs)
+      | (subst hs)
+  all_goals
+    rw [hpc] at hp; simp only [PcOk] at hp
+    pc_only ch pcok t
+
+theorem minv_rdData (s s' : St) (t n x : Nat) (_C : CInv s) (M : MInv s)
+    (hs : step s (.rdData t n x) = some s') : MInv s' := by
+  obtain ⟨ch, pcok⟩ := M
+  have hp := pcok t
+  cases hpc : s.pc t <;> simp [step, hpc] at hs
+  all_goals
+    first
+      | (obtain ⟨hc, rfl⟩ := hs)
+      | (subst hs)
+  all_goals
+    rw [hpc] at hp; simp only [PcOk] at hp
+    pc_only ch pcok t
+
+
+/-! ### preservation of the MPSC invariant: events that change cells or ghost fields -/
+
+
+macro "data_chain" ch:ident C:ident : tactic => `(tactic| (
+  have ⟨hdtl, head_eq, tail_eq, lk, unlk, lktl, lkhd, dist, qd, nz, dat, xlen, hand⟩ := $ch
+  have hle := CInv.hle $C
+  constructor
+  all_goals
+    first
+      | assumption
+      | (intros; (try dsimp only at *);
+         grind [upd, getElem?_append_of_some, getElem?_append_length, getElem?_append_lt, take_succ_of_getElem?])
+))
+
+macro "data_pcok" s:ident ch:ident pcok:ident t:ident C:ident : tactic => `(tactic| (
+  have ⟨hdtl, head_eq, tail_eq, lk, unlk, lktl, lkhd, dist, qd, nz, dat, xlen, hand⟩ := $ch
+  have hle := CInv.hle $C
+  intro t'
+  by_cases e : t' = $t
+  · subst e; simp only [upd_same]
+    first
+      | (simp only [PcOk]; done)
+      | (simp only [PcOk]; grind [upd, getElem?_append_of_some, getElem?_append_length, getElem?_append_lt, take_succ_of_getElem?])
+  · simp only [upd_other _ _ _ _ e]
+    have hq := $pcok t'
+    have hw := CInv.wk $C t'
+    cases hq' : St.pc $s t' <;> rw [hq'] at hq hw <;> simp only [PcOk, Pc.isWorker] at hq hw ⊢
+    all_goals
+      first
+        | trivial
+        | grind [upd, getElem?_append_of_some, getElem?_append_length, getElem?_append_lt, take_succ_of_getElem?]
+  ))
+
+theorem chain_callPush (s s' : St) (t v n : Nat) (C : CInv s) (M : MInv s)
+    (hs : step s (.callPush t v n) = some s') :
+    Chain s'.hd s'.tl s'.head s'.tail s'.next s'.nodeAt s'.linked s'.own s'.data s'.xchgd s'.handed := by
+  obtain ⟨ch, pcok⟩ := M
+  have hp := pcok t
+  have hwt := C.wk t
+  have hnr := C.nretwin t
+  cases hpc : s.pc t <;> simp [step, hpc] at hs
+  all_goals
+    first
+      | (obtain ⟨hc, rfl⟩ := hs)
+      | (subst hs)
+  all_goals
+    rw [hpc] at hp hwt hnr; simp only [PcOk, Pc.isWorker, Pc.retWin] at hp hwt hnr
+    data_chain ch C
+
+theorem pcok_callPush (s s' : St) (t v n : Nat) (C : CInv s) (M : MInv s)
+    (hs : step s (.callPush t v n) = some s') :
+    ∀ t', PcOk s'.tl s'.head s'.next s'.nodeAt s'.linked s'.linker s'.own s'.data s'.xchgd s'.handed t' (s'.pc t') := by
+  obtain ⟨ch, pcok⟩ := M
+  have hp := pcok t
+  have hwt := C.wk t
+  have hnr := C.nretwin t
+  cases hpc : s.pc t <;> simp [step, hpc] at hs
+  all_goals
+    first
+      | (obtain ⟨hc, rfl⟩ := hs)
+      | (subst hs)
+  all_goals
+    rw [hpc] at hp hwt hnr; simp only [PcOk, Pc.isWorker, Pc.retWin] at hp hwt hnr
+    data_pcok s ch pcok t C
+
+theorem minv_callPush (s s' : St) (t v n : Nat) (C : CInv s) (M : MInv s)
+    (hs : step s (.callPush t v n) = some s') : MInv s' :=
+  ⟨chain_callPush s s' t v n C M hs, pcok_callPush s s' t v n C M hs⟩
+
+theorem chain_wrNext (s s' : St) (t n x : Nat) (C : CInv s) (M : MInv s)
+    (hs : step s (.wrNext t n x) = some s') :
+    Chain s'.hd s'.tl s'.head s'.tail s'.next s'.nodeAt s'.linked s'.own s'.data s'.xchgd s'.handed := by
+  obtain ⟨ch, pcok⟩ := M
+  have hp := pcok t
+  have hwt := C.wk t
+  have hnr := C.nretwin t
+  cases hpc : s.pc t <;> simp [step, hpc] at hs
+  all_goals
+    first
+      | (obtain ⟨hc, rfl⟩ := hs)
+      | (subst hs)
+  all_goals
+    rw [hpc] at hp hwt hnr; simp only [PcOk, Pc.isWorker, Pc.retWin] at hp hwt hnr
+    data_chain ch C
+
+theorem pcok_wrNext (s s' : St) (t n x : Nat) (C : CInv s) (M : MInv s)
+    (hs : step s (.wrNext t n x) = some s') :
+    ∀ t', PcOk s'.tl s'.head s'.next s'.nodeAt s'.linked s'.linker s'.own s'.data s'.xchgd s'.handed t' (s'.pc t') := by
+  obtain ⟨ch, pcok⟩ := M
+  have hp := pcok t
+  have hwt := C.wk t
+  have hnr := C.nretwin t
+  cases hpc : s.pc t <;> simp [step, hpc] at hs
+  all_goals
+    first
+      | (obtain ⟨hc, rfl⟩ := hs)
+      | (subst hs)
+  all_goals
+    rw [hpc] at hp hwt hnr; simp only [PcOk, Pc.isWorker, Pc.retWin] at hp hwt hnr
+    data_pcok s ch pcok t C
+
+theorem minv_wrNext (s s' : St) (t n x : Nat) (C : CInv s) (M : MInv s)
+    (hs : step s (.wrNext t n x) = some s') : MInv s' :=
+  ⟨chain_wrNext s s' t n x C M hs, pcok_wrNext s s' t n x C M hs⟩
+
+theorem chain_xchgTail (s s' : St) (t old new : Nat) (C : CInv s) (M : MInv s)
+    (hs : step s (.xchgTail t old new) = some s') :
+    Chain s'.hd s'.tl s'.head s'.tail s'.next s'.nodeAt s'.linked s'.own s'.data s'.xchgd s'.handed := by
+  obtain ⟨ch, pcok⟩ := M
+  have hp := pcok t
+  have hwt := C.wk t
+  have hnr := C.nretwin t
+  cases hpc : s.pc t <;> simp [step, hpc] at hs
+  all_goals
+    first
+      | (obtain ⟨hc, rfl⟩ := hs)
+      | (subst hs)
+  all_goals
+    rw [hpc] at hp hwt hnr; simp only [PcOk, Pc.isWorker, Pc.retWin] at hp hwt hnr
+    data_chain ch C
+
+theorem pcok_xchgTail (s s' : St) (t old new : Nat) (C : CInv s) (M : MInv s)
+    (hs : step s (.xchgTail t old new) = some s') :
+    ∀ t', PcOk s'.tl s'.head s'.next s'.nodeAt s'.linked s'.linker s'.own s'.data s'.xchgd s'.handed t' (s'.pc t') := by
+  obtain ⟨ch, pcok⟩ := M
+  have hp := pcok t
+  have hwt := C.wk t
+  have hnr := C.nretwin t
+  cases hpc : s.pc t <;> simp [step, hpc] at hs
+  all_goals
+    first
+      | (obtain ⟨hc, rfl⟩ := hs)
+      | (subst hs)
+  all_goals
+    rw [hpc] at hp hwt hnr; simp only [PcOk, Pc.isWorker, Pc.retWin] at hp hwt hnr
+    data_pcok s ch pcok t C
+
+theorem minv_xchgTail (s s' : St) (t old new : Nat) (C : CInv s) (M : MInv s)
+    (hs : step s (.xchgTail t old new) = some s') : MInv s' :=
+  ⟨chain_xchgTail s s' t old new C M hs, pcok_xchgTail s s' t old new C M hs⟩
+
+theorem chain_wrHead (s s' : St) (t x : Nat) (C : CInv s) (M : MInv s)
+    (hs : step s (.wrHead t x) = some s') :
+    Chain s'.hd s'.tl s'.head s'.tail s'.next s'.nodeAt s'.linked s'.own s'.data s'.xchgd s'.handed := by
+  obtain ⟨ch, pcok⟩ := M
+  have hp := pcok t
+  have hwt := C.wk t
+  have hnr := C.nretwin t
+  cases hpc : s.pc t <;> simp [step, hpc] at hs
+  all_goals
+    first
+      | (obtain ⟨hc, rfl⟩ := hs)
+      | (subst hs)
+  all_goals
+    rw [hpc] at hp hwt hnr; simp only [PcOk, Pc.isWorker, Pc.retWin] at hp hwt hnr
+    data_chain ch C
+
+theorem pcok_wrHead (s s' : St) (t x : Nat) (C : CInv s) (M : MInv s)
+    (hs : step s (.wrHead t x) = some s') :
+    ∀ t', PcOk s'.tl s'.head s'.next s'.nodeAt s'.linked s'.linker s'.own s'.data s'.xchgd s'.handed t' (s'.pc t') := by
+  obtain ⟨ch, pcok⟩ := M
+  have hp := pcok t
+  have hwt := C.wk t
+  have hnr := C.nretwin t
+  cases hpc : s.pc t <;> simp [step, hpc] at hs
+  all_goals
+    first
+      | (obtain ⟨hc, rfl⟩ := hs)
+      | (subst hs)
+  all_goals
+    rw [hpc] at hp hwt hnr; simp only [PcOk, Pc.isWorker, Pc.retWin] at hp hwt hnr
+    data_pcok s ch pcok t C
+
+theorem minv_wrHead (s s' : St) (t x : Nat) (C : CInv s) (M : MInv s)
+    (hs : step s (.wrHead t x) = some s') : MInv s' :=
+  ⟨chain_wrHead s s' t x C M hs, pcok_wrHead s s' t x C M hs⟩
+
+theorem chain_wrData (s s' : St) (t n x : Nat) (C : CInv s) (M : MInv s)
+    (hs : step s (.wrData t n x) = some s') :
+    Chain s'.hd s'.tl s'.head s'.tail s'.next s'.nodeAt s'.linked s'.own s'.data s'.xchgd s'.handed := by
+  obtain ⟨ch, pcok⟩ := M
+  have hp := pcok t
+  have hwt := C.wk t
+  have hnr := C.nretwin t
+  cases hpc : s.pc t <;> simp [step, hpc] at hs
+  all_goals
+    first
+      | (obtain ⟨hc, rfl⟩ := hs)
+      | (subst hs)
+  all_goals
+    rw [hpc] at hp hwt hnr; simp only [PcOk, Pc.isWorker, Pc.retWin] at hp hwt hnr
+    data_chain ch C
+
+theorem pcok_wrData (s s' : St) (t n x : Nat) (C : CInv s) (M : MInv s)
+    (hs : step s (.wrData t n x) = some s') :
+    ∀ t', PcOk s'.tl s'.head s'.next s'.nodeAt s'.linked s'.linker s'.own s'.data s'.xchgd s'.handed t' (s'.pc t') := by
+  obtain ⟨ch, pcok⟩ := M
+  have hp := pcok t
+  have hwt := C.wk t
+  have hnr := C.nretwin t
+  cases hpc : s.pc t <;> simp [step, hpc] at hs
+  all_goals
+    first
+      | (obtain ⟨hc, rfl⟩ := hs)
+      | (subst hs)
+  all_goals
+    rw [hpc] at hp hwt hnr; simp only [PcOk, Pc.isWorker, Pc.retWin] at hp hwt hnr
+    data_pcok s ch pcok t C
+
+theorem minv_wrData (s s' : St) (t n x : Nat) (C : CInv s) (M : MInv s)
+    (hs : step s (.wrData t n x) = some s') : MInv s' :=
+  ⟨chain_wrData s s' t n x C M hs, pcok_wrData s s' t n x C M hs⟩
+
+theorem chain_retGw (s s' : St) (t v n : Nat) (C : CInv s) (M : MInv s)
+    (hs : step s (.retGw t v n) = some s') :
+    Chain s'.hd s'.tl s'.head s'.tail s'.next s'.nodeAt s'.linked s'.own s'.data s'.xchgd s'.handed := by
+  obtain ⟨ch, pcok⟩ := M
+  have hp := pcok t
+  have hwt := C.wk t
+  have hnr := C.nretwin t
+  cases hpc : s.pc t <;> simp [step, hpc] at hs
+  all_goals
+    first
+      | (obtain ⟨hc, rfl⟩ := hs)
+      | (subst hs)
+  all_goals
+    rw [hpc] at hp hwt hnr; simp only [PcOk, Pc.isWorker, Pc.retWin] at hp hwt hnr
+    data_chain ch C
+
+theorem pcok_retGw (s s' : St) (t v n : Nat) (C : CInv s) (M : MInv s)
+    (hs : step s (.retGw t v n) = some s') :
+    ∀ t', PcOk s'.tl s'.head s'.next s'.nodeAt s'.linked s'.linker s'.own s'.data s'.xchgd s'.handed t' (s'.pc t') := by
+  obtain ⟨ch, pcok⟩ := M
+  have hp := pcok t
+  have hwt := C.wk t
+  have hnr := C.nretwin t
+  cases hpc : s.pc t <;> simp [step, hpc] at hs
+  all_goals
+    first
+      | (obtain ⟨hc, rfl⟩ := hs)
+      | (subst hs)
+  all_goals
+    rw [hpc] at hp hwt hnr; simp only [PcOk, Pc.isWorker, Pc.retWin] at hp hwt hnr
+    data_pcok s ch pcok t C
+
+theorem minv_retGw (s s' : St) (t v n : Nat) (C : CInv s) (M : MInv s)
+    (hs : step s (.retGw t v n) = some s') : MInv s' :=
+  ⟨chain_retGw s s' t v n C M hs, pcok_retGw s s' t v n C M hs⟩
+
+theorem minv_step (s : St) (e : Ev) (s' : St) (C : CInv s) (M : MInv s) (hs : step s e = some s') :
+    MInv s' := by
+  cases e with
+  | callPush t v n => exact minv_callPush s s' t v n C M hs
+  | retPush t r => exact minv_retPush s s' t r C M hs
+  | callGw t => exact minv_callGw s s' t C M hs
+  | retGw t v n => exact minv_retGw s s' t v n C M hs
+  | faddIn t old => exact minv_faddIn s s' t old C M hs
+  | fsubIn t old op => exact minv_fsubIn s s' t old op C M hs
+  | rdIn t x => exact minv_rdIn s s' t x C M hs
+  | rdOut t x => exact minv_rdOut s s' t x C M hs
+  | wrOut t x => exact minv_wrOut s s' t x C M hs
+  | rdHead t x => exact minv_rdHead s s' t x C M hs
+  | wrHead t x => exact minv_wrHead s s' t x C M hs
+  | xchgTail t old new => exact minv_xchgTail s s' t old new C M hs
+  | rdNext t n x => exact minv_rdNext s s' t n x C M hs
+  | wrNext t n x => exact minv_wrNext s s' t n x C M hs
+  | rdData t n x => exact minv_rdData s s' t n x C M hs
+  | wrData t n x => exact minv_wrData s s' t n x C M hs
+
+/-! ### the combined invariant holds in every reachable state -/
+
+structure Inv (s : St) : Prop where
+  c : CInv s
+  m : MInv s
+
+theorem inv_init : Inv init := ⟨cinv_init, minv_init⟩
+
+theorem inv_step (s : St) (e : Ev) (s' : St) (I : Inv s) (hs : step s e = some s') : Inv s' :=
+  ⟨cinv_step s e s' I.c hs, minv_step s e s' I.c I.m hs⟩
+
+theorem inv_of_run {es : List Ev} {s : St} (h : sys.run es = some s) : Inv s :=
+  Sys.inv_of_run sys Inv inv_init inv_step h
+
+/-! ### history invariant: exchanged values come from `call push` -/
+
+/-- every exchanged value is the argument of an earlier `call push` (nothing is invented) -/
+def PushedInv (s : St) (es : List Ev) : Prop :=
+  (∀ v, v ∈ s.xchgd → ∃ t n, Ev.callPush t v n ∈ es) ∧
+  (∀ t v n, s.pc t = .pushCalled v n → Ev.callPush t v n ∈ es) ∧
+  (∀ t v n r, s.pc t = .pushAnnounced v n r → Ev.callPush t v n ∈ es) ∧
+  (∀ t v n r, s.pc t = .pushTerminated v n r → Ev.callPush t v n ∈ es)
+
+theorem pushedInv_step (s : St) (es : List Ev) (e : Ev) (s' : St) (I : PushedInv s es)
+    (hs : step s e = some s') : PushedInv s' (es ++ [e]) := by
+  obtain ⟨i1, i2, i3, i4⟩ := I
+  cases e <;> simp only [step] at hs <;> split at hs <;> simp at hs
+  all_goals
+    first
+      | (obtain ⟨hc, rfl⟩ := hs)
+      | (subst hs)
+  all_goals
+    refine ⟨?_, ?_, ?_, ?_⟩
+  all_goals
+    (intros; (try dsimp only at *); grind [upd])
+
+theorem pushedInv_of_run {es : List Ev} {s : St} (h : sys.run es = some s) : PushedInv s es := by
+  refine Sys.hist_inv_of_run sys PushedInv ?_ pushedInv_step h
+  simp [PushedInv, sys, init]
 
 end LibfiberVerif.WorkQueue
